@@ -175,6 +175,19 @@ func VerifC06_PlaceholderTimeout() {
 		}
 	}
 	vAssume(phPos)
+	// the real ask may be the replacement of the placeholder, decided but not yet confirmed by the shim: it is bound
+	// (allocated, linked both ways with the placeholder, which is marked released) and no longer pending
+	inflight := vBool("swap.inflight")
+	vSplit("swap.inflight")
+	if inflight {
+		vAssume(ph.released && real.taskGroupName == "tg-1")
+		real.allocated, real.nodeID = true, "node-1"
+		real.release, ph.release = ph, real
+		app.pending = resourcesNew()
+		for l := 0; l < 3; l++ {
+			g.c[l].pending = resourcesNew()
+		}
+	}
 	state0 := app.stateMachine.Current()
 	phWasLive := !ph.released && !ph.preempted
 	// a real allocation exists exactly when the application is Running here
@@ -195,7 +208,11 @@ func VerifC06_PlaceholderTimeout() {
 			vAssert(state1 == "Resuming", "G3 a Soft gang application resumes normal scheduling when the placeholder timeout fires before any real allocation")
 		}
 		vAssert(len(app.requests) == 0 && isZeroRes(app.pending), "G3 every pending ask is removed on timeout")
-		vAssert(g.rec.relByKey("ask-2") == 1 && real.released, "G3 the pending ask is announced as released once")
+		if inflight {
+			vAssert(g.rec.relByKey("ask-2") == 0 && !real.released, "G3 a real ask that is bound as the replacement of a placeholder is not announced as released by the timeout (the shim would see it outstanding again after confirming the swap)")
+		} else {
+			vAssert(g.rec.relByKey("ask-2") == 1 && real.released, "G3 the pending ask is announced as released once")
+		}
 		vAssert(ph.released || ph.preempted, "G3 every placeholder is released (or already preempted) after the timeout")
 		if phWasLive {
 			vAssert(g.rec.relByKey("ask-1") == 1, "G3 a live placeholder is announced exactly once with the timeout")
